@@ -7,17 +7,37 @@
 //! Oracle of the falsifier: the family's reference validity predicate `is_valid` (independent of the library): valid
 //! => prove = Ok, verify = Ok, verify(from_bytes(to_bytes(proof))) = Ok, to_bytes(from_bytes(bytes)) = bytes.
 //! Build with --release: debug builds run `Trace::validate` and debug-only degree checks.
+//! `corr ... deep`: the algebraic model (deep_poly / v_deep / segment / ood_lhs of coq/Model/Stark.v over Z/p) against the REAL composer code:
+//! prover/src/composer/mod.rs and verifier/src/composer.rs are compiled into this binary straight from /repo (#[path]), so the
+//! comparison follows the working tree on every run without any hook in /repo.
+extern crate alloc;
+extern crate winter_air as air;
+extern crate winter_math as math;
+extern crate winter_utils as utils;
+mod prover_src {
+    pub use winter_prover::{StarkDomain, TracePolyTable};
+    pub mod constraints { pub use winter_prover::CompositionPoly; }
+    #[allow(dead_code, unused_imports)]
+    #[path = "/repo/prover/src/composer/mod.rs"]
+    pub mod composer;
+}
+mod verifier_src {
+    #[allow(dead_code, unused_imports)]
+    #[path = "/repo/verifier/src/composer.rs"]
+    pub mod composer;
+}
 use std::panic::AssertUnwindSafe;
 
 use wf_harness::{airfam::*, catch, jstr, prng::Rng, silence_panics, toy::ToyHasher};
-use winter_air::{proof::Proof, AirContext, FieldExtension, ProofOptions, TraceInfo, TransitionConstraintDegree};
+use winter_air::{proof::Proof, Air, AirContext, Assertion, AuxRandElements, ConstraintCompositionCoefficients, EvaluationFrame, FieldExtension, GkrVerifier,
+    LagrangeKernelRandElements, ProofOptions, TraceInfo, TransitionConstraintDegree};
 use winter_crypto::{
     hashers::{Blake3_192, Blake3_256, Rp62_248, Rp64_256, RpJive64_256, Sha3_256},
-    DefaultRandomCoin, ElementHasher,
+    DefaultRandomCoin, ElementHasher, RandomCoin,
 };
 use winter_fri::FriOptions;
-use winter_math::{fields::{f128, f62, f64}, ExtensibleField, StarkField};
-use winter_prover::Prover;
+use winter_math::{fields::{f128, f62, f64}, ExtensibleField, ExtensionOf, FieldElement, StarkField};
+use winter_prover::{matrix::ColMatrix, DefaultConstraintEvaluator, DefaultTraceLde, Prover, ProverGkrProof, StarkDomain, Trace, TracePolyTable};
 use winter_verifier::{verify, AcceptableOptions};
 
 // ------------------------------------------------------------------------------------------------ cases
@@ -25,7 +45,7 @@ use winter_verifier::{verify, AcceptableOptions};
 struct Opts { q: usize, blowup: usize, grind: u32, ext: u8, fold: usize, rem: usize }
 
 #[derive(Clone, Debug, PartialEq, Eq)]
-struct Case { field: String, hasher: String, opts: Opts, spec: Spec }
+struct Case { field: String, hasher: String, opts: Opts, spec: Spec, lag: usize }  // lag > 0: the Lagrange-kernel family with `lag` auxiliary columns (spec: only log_n is used)
 
 fn ext_of(e: u8) -> FieldExtension { match e { 1 => FieldExtension::None, 2 => FieldExtension::Quadratic, _ => FieldExtension::Cubic } }
 
@@ -39,8 +59,8 @@ fn case_json(c: &Case) -> String {
         AKind::Periodic { col, first, stride } => format!("[1,{},{},{}]", col, first, stride),
         AKind::Sequence { col, first, stride } => format!("[2,{},{},{}]", col, first, stride),
     }).collect();
-    format!("{{\"field\":{},\"hasher\":{},\"opts\":{{\"q\":{},\"blowup\":{},\"grind\":{},\"ext\":{},\"fold\":{},\"rem\":{}}},\"spec\":{{\"width\":{},\"log_n\":{},\"degs\":{},\"periodic\":{},\"use_per\":{},\"hold\":{},\"exemptions\":{},\"assertions\":[{}],\"aux_width\":{},\"aux_rands\":{},\"aux_assert_last\":{},\"seed\":{},\"constant_trace\":{},\"rot\":{}}}}}",
-        jstr(&c.field), jstr(&c.hasher), c.opts.q, c.opts.blowup, c.opts.grind, c.opts.ext, c.opts.fold, c.opts.rem,
+    format!("{{\"lag\":{},\"field\":{},\"hasher\":{},\"opts\":{{\"q\":{},\"blowup\":{},\"grind\":{},\"ext\":{},\"fold\":{},\"rem\":{}}},\"spec\":{{\"width\":{},\"log_n\":{},\"degs\":{},\"periodic\":{},\"use_per\":{},\"hold\":{},\"exemptions\":{},\"assertions\":[{}],\"aux_width\":{},\"aux_rands\":{},\"aux_assert_last\":{},\"seed\":{},\"constant_trace\":{},\"rot\":{}}}}}",
+        c.lag, jstr(&c.field), jstr(&c.hasher), c.opts.q, c.opts.blowup, c.opts.grind, c.opts.ext, c.opts.fold, c.opts.rem,
         s.width, s.log_n, arr(&s.degs), arr(&s.periodic), barr(&s.use_per), barr(&s.hold), s.exemptions, asr.join(","),
         s.aux_width, s.aux_rands, s.aux_assert_last as u8, s.seed, s.constant_trace as u8, arr(&s.rot))
 }
@@ -49,6 +69,7 @@ fn case_json(c: &Case) -> String {
 #[derive(Clone, Debug)]
 enum J { N(u64), S(String), A(Vec<J>), O(Vec<(String, J)>) }
 impl J {
+    fn get_opt(&self, k: &str) -> Option<&J> { match self { J::O(v) => v.iter().find(|(a, _)| a == k).map(|(_, b)| b), _ => None } }
     fn get(&self, k: &str) -> &J { match self { J::O(v) => v.iter().find(|(a, _)| a == k).map(|(_, b)| b).unwrap_or_else(|| panic!("missing key {}", k)), _ => panic!("not an object") } }
     fn n(&self) -> u64 { match self { J::N(x) => *x, _ => panic!("not a number") } }
     fn s(&self) -> String { match self { J::S(x) => x.clone(), _ => panic!("not a string") } }
@@ -76,12 +97,12 @@ fn case_of_json(txt: &str) -> Case {
     let us = |x: &J| x.a().iter().map(|v| v.n() as usize).collect::<Vec<_>>();
     let bs = |x: &J| x.a().iter().map(|v| v.n() != 0).collect::<Vec<_>>();
     let assertions = s.get("assertions").a().iter().map(|a| { let t = us(a); match t[0] { 0 => AKind::Single { col: t[1], step: t[2] }, 1 => AKind::Periodic { col: t[1], first: t[2], stride: t[3] }, _ => AKind::Sequence { col: t[1], first: t[2], stride: t[3] } } }).collect();
-    Case { field: j.get("field").s(), hasher: j.get("hasher").s(),
+    Case { lag: j.get_opt("lag").map(|x| x.n() as usize).unwrap_or(0), field: j.get("field").s(), hasher: j.get("hasher").s(),
         opts: Opts { q: o.get("q").n() as usize, blowup: o.get("blowup").n() as usize, grind: o.get("grind").n() as u32, ext: o.get("ext").n() as u8, fold: o.get("fold").n() as usize, rem: o.get("rem").n() as usize },
         spec: Spec { width: s.get("width").n() as usize, log_n: s.get("log_n").n() as u32, degs: us(s.get("degs")).iter().map(|&x| x as u32).collect(), periodic: us(s.get("periodic")),
             use_per: bs(s.get("use_per")), hold: bs(s.get("hold")), exemptions: s.get("exemptions").n() as usize, assertions, aux_width: s.get("aux_width").n() as usize,
             aux_rands: s.get("aux_rands").n() as usize, aux_assert_last: s.get("aux_assert_last").n() != 0, seed: s.get("seed").n(), constant_trace: s.get("constant_trace").n() != 0,
-            rot: us(s.get("rot")).iter().map(|&x| x as u32).collect() } }
+            rot: s.get_opt("rot").map(|x| us(x).iter().map(|&x| x as u32).collect()).unwrap_or_default() } }
 }
 
 // ------------------------------------------------------------------------------------------------ one run
@@ -109,6 +130,108 @@ where B: StarkField + ExtensibleField<2> + ExtensibleField<3> + 'static, H: Elem
     "ok".into()
 }
 
+
+// ------------------------------------------------------------------------------------------------ Lagrange-kernel family
+// main: one column 0,1,2,.. (next = cur + 1, col0[0] = 0); aux: `w - 1` columns (sum r_i) * main and the Lagrange kernel column
+// (last), built from log2(n) random elements drawn by a dummy GKR step — the generic-field version of winterfell/src/tests.rs.
+#[derive(Debug, Clone, Default)]
+pub struct LagGkrVerifier;
+impl GkrVerifier for LagGkrVerifier {
+    type GkrProof = usize;
+    type Error = String;
+    fn verify<E, Hh>(&self, gkr_proof: usize, public_coin: &mut impl RandomCoin<BaseField = E::BaseField, Hasher = Hh>) -> Result<LagrangeKernelRandElements<E>, String>
+    where E: FieldElement, Hh: ElementHasher<BaseField = E::BaseField> {
+        if gkr_proof > 64 { return Err("bad gkr proof".into()); }
+        let mut v = Vec::with_capacity(gkr_proof);
+        for _ in 0..gkr_proof { v.push(public_coin.draw().map_err(|e| e.to_string())?); }
+        Ok(LagrangeKernelRandElements::new(v))
+    }
+}
+pub struct LagAir<B: StarkField> { ctx: AirContext<B> }
+impl<B: StarkField + ExtensibleField<2> + ExtensibleField<3>> Air for LagAir<B> {
+    type BaseField = B;
+    type PublicInputs = ();
+    type GkrProof = usize;
+    type GkrVerifier = LagGkrVerifier;
+    fn new(trace_info: TraceInfo, _pi: (), options: ProofOptions) -> Self {
+        let aw = trace_info.aux_segment_width();
+        LagAir { ctx: AirContext::new_multi_segment(trace_info, vec![TransitionConstraintDegree::new(1)], vec![TransitionConstraintDegree::new(1)], 1, 1, Some(aw - 1), options) }
+    }
+    fn context(&self) -> &AirContext<B> { &self.ctx }
+    fn evaluate_transition<E: FieldElement<BaseField = B>>(&self, frame: &EvaluationFrame<E>, _p: &[E], result: &mut [E]) { result[0] = frame.next()[0] - frame.current()[0] - E::ONE; }
+    fn get_assertions(&self) -> Vec<Assertion<B>> { vec![Assertion::single(0, 0, B::ZERO)] }
+    fn evaluate_aux_transition<F, E>(&self, _m: &EvaluationFrame<F>, _a: &EvaluationFrame<E>, _p: &[F], _r: &[E], _result: &mut [E])
+    where F: FieldElement<BaseField = B>, E: FieldElement<BaseField = B> + ExtensionOf<F> {}
+    fn get_aux_assertions<E: FieldElement<BaseField = B>>(&self, _r: &[E]) -> Vec<Assertion<E>> { vec![Assertion::single(0, 0, E::ZERO)] }
+    fn get_auxiliary_proof_verifier<E: FieldElement<BaseField = B>>(&self) -> LagGkrVerifier { LagGkrVerifier }
+}
+pub struct LagTrace<B: StarkField> { main: ColMatrix<B>, info: TraceInfo }
+impl<B: StarkField> Trace for LagTrace<B> {
+    type BaseField = B;
+    fn info(&self) -> &TraceInfo { &self.info }
+    fn main_segment(&self) -> &ColMatrix<B> { &self.main }
+    fn read_main_frame(&self, row_idx: usize, frame: &mut EvaluationFrame<B>) {
+        let next = (row_idx + 1) % self.main.num_rows();
+        self.main.read_row_into(row_idx, frame.current_mut());
+        self.main.read_row_into(next, frame.next_mut());
+    }
+}
+pub struct LagProver<B: StarkField, H> { options: ProofOptions, aw: usize, _p: std::marker::PhantomData<(B, H)> }
+impl<B, H> Prover for LagProver<B, H>
+where B: StarkField + ExtensibleField<2> + ExtensibleField<3> + 'static, H: ElementHasher<BaseField = B> + Send + Sync {
+    type BaseField = B;
+    type Air = LagAir<B>;
+    type Trace = LagTrace<B>;
+    type HashFn = H;
+    type RandomCoin = DefaultRandomCoin<H>;
+    type TraceLde<E: FieldElement<BaseField = B>> = DefaultTraceLde<E, H>;
+    type ConstraintEvaluator<'a, E: FieldElement<BaseField = B>> = DefaultConstraintEvaluator<'a, LagAir<B>, E>;
+    fn get_pub_inputs(&self, _t: &LagTrace<B>) {}
+    fn options(&self) -> &ProofOptions { &self.options }
+    fn new_trace_lde<E: FieldElement<BaseField = B>>(&self, trace_info: &TraceInfo, main_trace: &ColMatrix<B>, domain: &StarkDomain<B>) -> (Self::TraceLde<E>, TracePolyTable<E>) { DefaultTraceLde::new(trace_info, main_trace, domain) }
+    fn new_evaluator<'a, E: FieldElement<BaseField = B>>(&self, air: &'a LagAir<B>, aux: Option<AuxRandElements<E>>, cc: ConstraintCompositionCoefficients<E>) -> Self::ConstraintEvaluator<'a, E> { DefaultConstraintEvaluator::new(air, aux, cc) }
+    fn generate_gkr_proof<E: FieldElement<BaseField = B>>(&self, main_trace: &LagTrace<B>, public_coin: &mut Self::RandomCoin) -> (ProverGkrProof<Self>, LagrangeKernelRandElements<E>) {
+        let k = main_trace.main.num_rows().ilog2() as usize;
+        let v: Vec<E> = (0..k).map(|_| public_coin.draw().unwrap()).collect();
+        (k, LagrangeKernelRandElements::new(v))
+    }
+    fn build_aux_trace<E: FieldElement<BaseField = B>>(&self, main_trace: &LagTrace<B>, aux: &AuxRandElements<E>) -> ColMatrix<E> {
+        let main = main_trace.main_segment();
+        let r = aux.lagrange().expect("lagrange random elements");
+        let sum = r.iter().fold(E::ZERO, |a, &x| a + x);
+        let mut cols: Vec<Vec<E>> = (1..self.aw).map(|_| main.get_column(0).iter().map(|v| sum.mul_base(*v)).collect()).collect();
+        let n = main.num_rows();
+        cols.push((0..n).map(|row| r.iter().enumerate().fold(E::ONE, |acc, (bit, &ri)| if row & (1 << bit) == 0 { acc * (E::ONE - ri) } else { acc * ri })).collect());
+        ColMatrix::new(cols)
+    }
+}
+
+fn run_lag<B, H>(log_n: u32, aw: usize, opts: &ProofOptions) -> String
+where B: StarkField + ExtensibleField<2> + ExtensibleField<3> + 'static, H: ElementHasher<BaseField = B> + Send + Sync {
+    let n = 1usize << log_n;
+    let col: Vec<B> = (0..n).map(|i| B::from(i as u32)).collect();
+    // reference validity (independent of the library): increments by one from zero
+    if col[0] != B::ZERO || (0..n - 1).any(|i| col[i + 1] != col[i] + B::ONE) { return "invalid-trace".into(); }
+    let info = match catch(move || TraceInfo::new_multi_segment(1, aw, 0, n, vec![])) { Ok(i) => i, Err(_) => return "inadmissible".into() };
+    let trace = LagTrace { main: ColMatrix::new(vec![col]), info };
+    let prover = LagProver::<B, H> { options: opts.clone(), aw, _p: std::marker::PhantomData };
+    finish_run::<LagAir<B>, H, _>(catch(AssertUnwindSafe(|| prover.prove(trace))), (), opts)
+}
+
+fn finish_run<A, H, Er: std::fmt::Display>(res: Result<Result<Proof, Er>, String>, pi: A::PublicInputs, opts: &ProofOptions) -> String
+where A: Air, A::PublicInputs: Clone, H: ElementHasher<BaseField = A::BaseField> {
+    let proof = match res { Ok(Ok(p)) => p, Ok(Err(e)) => return format!("prove-err:{}", clip(&e.to_string())), Err(m) => return format!("prove-panic:{}", clip(&m)) };
+    let bytes = proof.to_bytes();
+    let acc = AcceptableOptions::OptionSet(vec![opts.clone()]);
+    match catch(AssertUnwindSafe(|| verify::<A, H, DefaultRandomCoin<H>>(proof, pi.clone(), &acc))) {
+        Ok(Ok(())) => {}, Ok(Err(e)) => return format!("verify-err:{}", clip(&e.to_string())), Err(m) => return format!("verify-panic:{}", clip(&m)) }
+    let p2 = match catch(AssertUnwindSafe(|| Proof::from_bytes(&bytes))) { Ok(Ok(p)) => p, Ok(Err(e)) => return format!("reparse-err:{}", clip(&e.to_string())), Err(m) => return format!("reparse-panic:{}", clip(&m)) };
+    if p2.to_bytes() != bytes { return "rebytes-differ".into(); }
+    match catch(AssertUnwindSafe(|| verify::<A, H, DefaultRandomCoin<H>>(p2, pi, &acc))) {
+        Ok(Ok(())) => {}, Ok(Err(e)) => return format!("reverify-err:{}", clip(&e.to_string())), Err(m) => return format!("reverify-panic:{}", clip(&m)) }
+    "ok".into()
+}
+
 const FIELDS: [&str; 3] = ["f62", "f64", "f128"];
 fn hashers_of(field: &str) -> &'static [&'static str] {
     match field { "f62" => &["blake3_256", "blake3_192", "sha3_256", "rp62_248", "toy"], "f64" => &["blake3_256", "blake3_192", "sha3_256", "rp64_256", "rpjive64_256", "toy"], _ => &["blake3_256", "blake3_192", "sha3_256", "toy"] }
@@ -120,22 +243,23 @@ fn make_opts(o: &Opts) -> Option<ProofOptions> { catch(|| ProofOptions::new(o.q,
 fn run_case(c: &Case) -> String {
     let opts = match make_opts(&c.opts) { Some(o) => o, None => return "options-rejected".into() };
     type B62 = f62::BaseElement; type B64 = f64::BaseElement; type B128 = f128::BaseElement;
+    macro_rules! go { ($b:ty, $h:ty) => { if c.lag > 0 { run_lag::<$b, $h>(c.spec.log_n, c.lag, &opts) } else { run_one::<$b, $h>(&c.spec, &opts) } } }
     match (c.field.as_str(), c.hasher.as_str()) {
-        ("f62", "blake3_256") => run_one::<B62, Blake3_256<B62>>(&c.spec, &opts),
-        ("f62", "blake3_192") => run_one::<B62, Blake3_192<B62>>(&c.spec, &opts),
-        ("f62", "sha3_256") => run_one::<B62, Sha3_256<B62>>(&c.spec, &opts),
-        ("f62", "rp62_248") => run_one::<B62, Rp62_248>(&c.spec, &opts),
-        ("f62", "toy") => run_one::<B62, ToyHasher<B62>>(&c.spec, &opts),
-        ("f64", "blake3_256") => run_one::<B64, Blake3_256<B64>>(&c.spec, &opts),
-        ("f64", "blake3_192") => run_one::<B64, Blake3_192<B64>>(&c.spec, &opts),
-        ("f64", "sha3_256") => run_one::<B64, Sha3_256<B64>>(&c.spec, &opts),
-        ("f64", "rp64_256") => run_one::<B64, Rp64_256>(&c.spec, &opts),
-        ("f64", "rpjive64_256") => run_one::<B64, RpJive64_256>(&c.spec, &opts),
-        ("f64", "toy") => run_one::<B64, ToyHasher<B64>>(&c.spec, &opts),
-        ("f128", "blake3_256") => run_one::<B128, Blake3_256<B128>>(&c.spec, &opts),
-        ("f128", "blake3_192") => run_one::<B128, Blake3_192<B128>>(&c.spec, &opts),
-        ("f128", "sha3_256") => run_one::<B128, Sha3_256<B128>>(&c.spec, &opts),
-        ("f128", "toy") => run_one::<B128, ToyHasher<B128>>(&c.spec, &opts),
+        ("f62", "blake3_256") => go!(B62, Blake3_256<B62>),
+        ("f62", "blake3_192") => go!(B62, Blake3_192<B62>),
+        ("f62", "sha3_256") => go!(B62, Sha3_256<B62>),
+        ("f62", "rp62_248") => go!(B62, Rp62_248),
+        ("f62", "toy") => go!(B62, ToyHasher<B62>),
+        ("f64", "blake3_256") => go!(B64, Blake3_256<B64>),
+        ("f64", "blake3_192") => go!(B64, Blake3_192<B64>),
+        ("f64", "sha3_256") => go!(B64, Sha3_256<B64>),
+        ("f64", "rp64_256") => go!(B64, Rp64_256),
+        ("f64", "rpjive64_256") => go!(B64, RpJive64_256),
+        ("f64", "toy") => go!(B64, ToyHasher<B64>),
+        ("f128", "blake3_256") => go!(B128, Blake3_256<B128>),
+        ("f128", "blake3_192") => go!(B128, Blake3_192<B128>),
+        ("f128", "sha3_256") => go!(B128, Sha3_256<B128>),
+        ("f128", "toy") => go!(B128, ToyHasher<B128>),
         _ => "unsupported-field-hasher".into(),
     }
 }
@@ -180,6 +304,11 @@ fn ctx_accepts<B: StarkField>(spec: &Spec, opts: &ProofOptions) -> Option<usize>
 /// admissible in the sense of the property: constructors accept, FRI schedule well-formed, fewer queries than LDE points,
 /// extension supported by the field
 fn admissible(c: &Case) -> bool {
+    if c.lag > 0 {
+        let lde = c.spec.n() * c.opts.blowup;
+        return c.lag >= 2 && c.lag <= 254 && c.spec.log_n >= 3 && c.spec.log_n <= 16 && make_opts(&c.opts).is_some() && fri_wellformed(lde, c.opts.blowup, c.opts.fold, c.opts.rem)
+            && c.opts.q < lde && ext_supported(&c.field, c.opts.ext) && hashers_of(&c.field).contains(&c.hasher.as_str());
+    }
     if !spec_wellformed(&c.spec) || c.spec.log_n < 3 || c.spec.log_n > 20 { return false; }
     let opts = match make_opts(&c.opts) { Some(o) => o, None => return false };
     let lde = c.spec.n() * c.opts.blowup;
@@ -233,6 +362,7 @@ fn shrinks(c: &Case) -> Vec<Case> {
     if !s.rot.is_empty() { v.push(with(&|d| d.spec.rot.clear())); }
     if s.hold.iter().any(|&h| h) && !s.assertions.iter().any(|a| matches!(a, AKind::Periodic { .. })) { v.push(with(&|d| for h in d.spec.hold.iter_mut() { *h = false; })); }
     if s.constant_trace { v.push(with(&|d| d.spec.constant_trace = false)); }
+    if c.lag > 2 { v.push(with(&|d| d.lag = 2)); }
     // options
     let o = &c.opts;
     if o.q > 1 { v.push(with(&|d| d.opts.q = 1)); v.push(with(&|d| d.opts.q /= 2)); v.push(with(&|d| d.opts.q -= 1)); }
@@ -267,7 +397,7 @@ fn shrink(c: &Case, out: &str, budget: &mut usize) -> (Case, String) {
 struct Tally { evals: usize, fails: usize, skipped: usize, classes: Vec<String>, strata: std::collections::BTreeMap<String, usize> }
 
 fn check(c: &Case, t: &mut Tally, stratum: &str) {
-    if !admissible(c) { t.skipped += 1; return; }
+    if !admissible(c) { t.skipped += 1; *t.strata.entry(format!("SKIPPED:{}", stratum)).or_insert(0) += 1; return; }
     let out = run_case(c);
     t.evals += 1;
     *t.strata.entry(stratum.to_string()).or_insert(0) += 1;
@@ -340,7 +470,7 @@ fn boundary_stream(r: &mut Rng, t: &mut Tally, thorough: bool) {
                 let s = mk();
                 let lde = s.n() * blowup;
                 let (fold, rem) = pick_fri(r, lde, blowup);
-                let c = Case { field: f.into(), hasher: hashers_of(f)[r.below(3) as usize].into(), opts: Opts { q: 2, blowup, grind: 0, ext, fold, rem }, spec: s };
+                let c = Case { lag: 0, field: f.into(), hasher: hashers_of(f)[r.below(3) as usize].into(), opts: Opts { q: 2, blowup, grind: 0, ext, fold, rem }, spec: s };
                 check(&c, t, name);
             }
         }
@@ -356,7 +486,7 @@ fn boundary_stream(r: &mut Rng, t: &mut Tally, thorough: bool) {
             let blowup = *r.pick(&[4usize, 8]);
             fit_degrees(&mut s, blowup);
             let (fold, rem) = pick_fri(r, s.n() * blowup, blowup);
-            check(&Case { field: f, hasher: h, opts: Opts { q: 1 + r.below(6) as usize, blowup, grind: 0, ext, fold, rem }, spec: s }, t, &format!("width:{}+{}", w, aw));
+            check(&Case { lag: 0, field: f, hasher: h, opts: Opts { q: 1 + r.below(6) as usize, blowup, grind: 0, ext, fold, rem }, spec: s }, t, &format!("width:{}+{}", w, aw));
         }
     }
     // ---- degree boundaries: every degree 1..=blowup+1 for blowup 2,4,8(,16), with and without a periodic column, x exemptions 1,2,d,blowup,n/2+1
@@ -377,7 +507,7 @@ fn boundary_stream(r: &mut Rng, t: &mut Tally, thorough: bool) {
                         let ext = 1 + r.below(3) as u8;
                         let (f, h) = pick_fh(r, ext);
                         let (fold, rem) = pick_fri(r, n * blowup, blowup);
-                        check(&Case { field: f, hasher: h, opts: Opts { q: 1 + r.below(4) as usize, blowup, grind: 0, ext, fold, rem }, spec: s }, t,
+                        check(&Case { lag: 0, field: f, hasher: h, opts: Opts { q: 1 + r.below(4) as usize, blowup, grind: 0, ext, fold, rem }, spec: s }, t,
                             &format!("degree:{}{}", if d as usize == blowup + 1 { "blowup+1" } else if d == 1 { "1" } else { "mid" }, if per { "+periodic" } else { "" }));
                     }
                 }
@@ -411,25 +541,26 @@ fn boundary_stream(r: &mut Rng, t: &mut Tally, thorough: bool) {
             let (f, h) = pick_fh(r, ext);
             let blowup = *r.pick(&[2usize, 4, 8]);
             let (fold, rem) = pick_fri(r, n * blowup, blowup);
-            check(&Case { field: f, hasher: h, opts: Opts { q: 1 + r.below(5) as usize, blowup, grind: 0, ext, fold, rem }, spec: s }, t, &format!("assertion:{}", name));
+            check(&Case { lag: 0, field: f, hasher: h, opts: Opts { q: 1 + r.below(5) as usize, blowup, grind: 0, ext, fold, rem }, spec: s }, t, &format!("assertion:{}", name));
         }
     }
     // ---- query-count boundaries: 1, 2, LDE-1, 254, 255 (needs LDE >= 256)
-    for &(log_n, blowup, q) in &[(3u32, 2usize, 1usize), (3, 2, 15), (3, 2, 2), (4, 4, 63), (5, 8, 255), (6, 4, 255), (7, 2, 255), (5, 8, 254), (5, 8, 253), (4, 16, 255), (3, 32, 255), (3, 64, 255), (3, 128, 255), (3, 128, 1)] {
+    for &(log_n, blowup, q) in &[(3u32, 2usize, 1usize), (3, 2, 15), (3, 2, 2), (4, 4, 63), (5, 8, 255), (6, 4, 255), (7, 2, 255), (5, 8, 254), (5, 8, 253), (4, 16, 255), (3, 32, 255), (3, 64, 255), (3, 128, 255), (3, 128, 1), (12, 64, 255), (13, 128, 255)] {
+        if log_n == 13 && !thorough { continue; }
         for ext in 1..=3u8 {
             if !thorough && ext == 2 && q != 255 { continue; }
             let s = Spec::simple(1 + r.below(3) as usize, log_n, 2, r.next_u64());
             let (f, h) = pick_fh(r, ext);
             let (fold, rem) = pick_fri(r, s.n() * blowup, blowup);
-            check(&Case { field: f, hasher: h, opts: Opts { q, blowup, grind: 0, ext, fold, rem }, spec: s }, t, &format!("queries:{}", if q == 255 { "255".to_string() } else if q + 1 == (1 << log_n) * blowup { "lde-1".into() } else { "other".into() }));
+            check(&Case { lag: 0, field: f, hasher: h, opts: Opts { q, blowup, grind: 0, ext, fold, rem }, spec: s }, t, &format!("queries:{}", if q == 255 { "255".to_string() } else if q + 1 == (1 << log_n) * blowup { "lde-1".into() } else { "other".into() }));
         }
     }
     // 255 columns AND 255 queries together
     {
         let s = Spec::simple(255, 3, 1, r.next_u64());
-        check(&Case { field: "f64".into(), hasher: "blake3_256".into(), opts: Opts { q: 255, blowup: 32, grind: 0, ext: 1, fold: 4, rem: 7 }, spec: s }, t, "width:255+queries:255");
+        check(&Case { lag: 0, field: "f64".into(), hasher: "blake3_256".into(), opts: Opts { q: 255, blowup: 32, grind: 0, ext: 1, fold: 4, rem: 7 }, spec: s }, t, "width:255+queries:255");
         let mut s = Spec::simple(200, 3, 1, r.next_u64()); s.aux_width = 55; s.aux_rands = 3;
-        check(&Case { field: "f62".into(), hasher: "rp62_248".into(), opts: Opts { q: 255, blowup: 32, grind: 0, ext: 2, fold: 8, rem: 15 }, spec: s }, t, "width:255+queries:255");
+        check(&Case { lag: 0, field: "f62".into(), hasher: "rp62_248".into(), opts: Opts { q: 255, blowup: 32, grind: 0, ext: 2, fold: 8, rem: 15 }, spec: s }, t, "width:255+queries:255");
     }
     // ---- FRI schedules: every (blowup, fold, rem) that is well formed for a few LDE sizes
     let mut sched = vec![];
@@ -448,14 +579,14 @@ fn boundary_stream(r: &mut Rng, t: &mut Tally, thorough: bool) {
         let (f, h) = pick_fh(r, ext);
         let lde = s.n() * blowup;
         let nl = FriOptions::new(blowup, fold, rem).num_fri_layers(lde);
-        check(&Case { field: f, hasher: h, opts: Opts { q: 1 + r.below(8.min(lde as u64 - 1)) as usize, blowup, grind: 0, ext, fold, rem }, spec: s }, t, &format!("fri:layers={}", nl.min(4)));
+        check(&Case { lag: 0, field: f, hasher: h, opts: Opts { q: 1 + r.below(8.min(lde as u64 - 1)) as usize, blowup, grind: 0, ext, fold, rem }, spec: s }, t, &format!("fri:layers={}", nl.min(4)));
     }
     // ---- grinding 0..=16 (20 in thorough)
     for g in [0u32, 1, 2, 7, 8, 12, 16].into_iter().chain(if thorough { vec![20u32] } else { vec![] }) {
         let s = Spec::simple(2, 3, 2, r.next_u64());
         let ext = 1 + r.below(3) as u8;
         let (f, h) = pick_fh(r, ext);
-        check(&Case { field: f, hasher: h, opts: Opts { q: 3, blowup: 4, grind: g, ext, fold: 2, rem: 1 }, spec: s }, t, "grinding");
+        check(&Case { lag: 0, field: f, hasher: h, opts: Opts { q: 3, blowup: 4, grind: g, ext, fold: 2, rem: 1 }, spec: s }, t, "grinding");
     }
     // ---- every field x every hasher x every extension once, on a mid-size member with aux segment and periodic column
     for f in FIELDS { for h in hashers_of(f) { for ext in 1..=3u8 {
@@ -464,7 +595,16 @@ fn boundary_stream(r: &mut Rng, t: &mut Tally, thorough: bool) {
         s.periodic = vec![4]; s.use_per = vec![false, true, false]; s.degs = vec![3, 2, 1]; s.exemptions = 2;
         s.aux_width = 2; s.aux_rands = 2;
         s.assertions = vec![AKind::Sequence { col: 0, first: 1, stride: 4 }, AKind::Single { col: 2, step: 15 }];
-        check(&Case { field: f.into(), hasher: (*h).into(), opts: Opts { q: 4, blowup: 4, grind: 1, ext, fold: 4, rem: 3 }, spec: s }, t, &format!("matrix:{}:{}:ext{}", f, h, ext));
+        check(&Case { lag: 0, field: f.into(), hasher: (*h).into(), opts: Opts { q: 4, blowup: 4, grind: 1, ext, fold: 4, rem: 3 }, spec: s }, t, &format!("matrix:{}:{}:ext{}", f, h, ext));
+    } } }
+    // ---- Lagrange-kernel auxiliary column (with 1, 2, 7, 253 ordinary auxiliary columns before it) on every field / extension
+    for f in FIELDS { for ext in 1..=3u8 { for &(log_n, aw) in &[(3u32, 2usize), (5, 3), (4, 8), (3, 254), (10, 2)] {
+        if !ext_supported(f, ext) || (log_n == 10 && !(thorough || ext == 2)) { continue; }
+        let blowup = *r.pick(&[2usize, 4, 8]);
+        let (fold, rem) = pick_fri(r, (1usize << log_n) * blowup, blowup);
+        let hs = hashers_of(f);
+        let c = Case { lag: aw, field: f.into(), hasher: hs[r.below(hs.len() as u64 - 1) as usize].into(), opts: Opts { q: 1 + r.below(7) as usize, blowup, grind: 0, ext, fold, rem }, spec: Spec::simple(1, log_n, 1, 0) };
+        check(&c, t, "lagrange-kernel");
     } } }
     let _ = base_opts();
 }
@@ -489,8 +629,43 @@ fn random_stream(r: &mut Rng, t: &mut Tally, n: usize) {
         let lde = n_ * blowup;
         let (fold, rem) = pick_fri(r, lde, blowup);
         let q = match r.below(8) { 0 => 1, 1 => (lde - 1).min(255), 2 => 255.min(lde - 1), _ => 1 + r.below(12.min(lde as u64 - 1)) as usize };
-        let c = Case { field: f, hasher: h, opts: Opts { q, blowup, grind: if r.chance(1, 4) { r.below(6) as u32 } else { 0 }, ext, fold, rem }, spec: s };
-        check(&c, t, "random");
+        let lag = if r.chance(1, 12) { 2 + r.below(6) as usize } else { 0 };
+        let c = Case { lag, field: f, hasher: h, opts: Opts { q, blowup, grind: if r.chance(1, 4) { r.below(6) as u32 } else { 0 }, ext, fold, rem }, spec: s };
+        check(&c, t, if lag > 0 { "random-lagrange" } else { "random" });
+    }
+}
+
+
+/// cross-check of the falsifier's oracle `is_valid` with the library's own `Trace::validate` (which panics on an invalid trace):
+/// honest traces and traces with one mutated cell (which stays valid only when the cell takes part in exempt transitions only
+/// and in no assertion).  A disagreement is reported as a harness failure.
+fn oracle_crosscheck(r: &mut Rng, t: &mut Tally, n: usize) {
+    type B = f64::BaseElement;
+    for i in 0..n {
+        let blowup = *r.pick(&[4usize, 8]);
+        let mut s = random_spec(r, 5, blowup);
+        fit_degrees(&mut s, blowup);
+        s.aux_width = 0; s.aux_rands = 0;
+        s.exemptions = 1 + r.below(4.min(s.n() as u64 / 2 + 1)) as usize;
+        let opts = ProofOptions::new(2, blowup, 0, FieldExtension::None, 2, 0);
+        if !spec_wellformed(&s) || ctx_accepts::<B>(&s, &opts).is_none() { continue; }
+        let mut cols = gen_main::<B>(&s);
+        let avals = assertion_values(&s, &cols);
+        if i % 2 == 1 { // mutate one cell AFTER the public assertion values were fixed
+            let (c, row) = (r.below(s.width as u64) as usize, r.below(s.n() as u64) as usize);
+            cols[c][row] += B::from(1 + r.below(3) as u32);
+        }
+        let mine = is_valid(&s, &cols, &avals);
+        let trace = FamTrace::new(&s, cols);
+        let air = FamAir::<B>::new(trace.info().clone(), PubInputs { spec: s.clone(), avals: avals.clone() }, opts.clone());
+        let theirs = catch(AssertUnwindSafe(|| trace.validate::<FamAir<B>, B>(&air, None))).is_ok();
+        t.evals += 1;
+        *t.strata.entry(format!("oracle-crosscheck:{}", if mine { "valid" } else { "invalid" })).or_insert(0) += 1;
+        if mine != theirs {
+            t.fails += 1;
+            let c = Case { lag: 0, field: "f64".into(), hasher: "blake3_256".into(), opts: Opts { q: 2, blowup, grind: 0, ext: 1, fold: 2, rem: 0 }, spec: s };
+            println!("{{\"what\":\"harness:oracle-disagrees-with-Trace::validate\",\"input\":{},\"expected\":\"is_valid = {}\",\"actual\":\"Trace::validate accepts = {}\",\"mutated\":{}}}", case_json(&c), mine, theirs, i % 2 == 1);
+        }
     }
 }
 
@@ -510,7 +685,7 @@ fn corr_opts(r: &mut Rng, n: usize, out: &mut Vec<String>) {
     for f in 0..=40usize { push(3, 8, 0, 3, f, 3); }
     for f in [64usize, 128, 256] { push(3, 8, 0, 3, f, 3); }
     for m in 0..=260usize { push(3, 8, 0, 1, 2, m); }
-    for m in [511usize, 1023, usize::MAX - 1] { push(3, 8, 0, 1, 2, m); }
+    for m in [511usize, 1023, (1usize << 61) - 1, 1usize << 61] { push(3, 8, 0, 1, 2, m); }
     for _ in 0..n {
         let q = *r.pick(&[0usize, 1, 7, 255, 256]) + r.below(2) as usize * r.below(200) as usize;
         let b = if r.chance(3, 4) { 1usize << r.below(9) } else { r.below(300) as usize };
@@ -528,7 +703,7 @@ fn corr_tinfo(r: &mut Rng, n: usize, out: &mut Vec<String>) {
         out.push(format!("tinfo {} {} {} {} => {} {}", main, aux, rands, len, match a { Ok(t) => format!("ok:{}:{}", t.width(), t.is_multi_segment() as u8), Err(_) => "panic".into() }, if b.is_ok() { "ok" } else { "panic" }));
     };
     for w in [0usize, 1, 2, 254, 255, 256, 257] { for a in [0usize, 1, 2, 253, 254, 255, 256] { for rands in [0usize, 1, 255, 256] { push(w, a, rands, 8); } } }
-    for len in (0..=40usize).chain([63, 64, 65, 1 << 10, (1 << 10) + 1, 1 << 20, 1 << 31, 1 << 40, usize::MAX]) { push(3, 0, 0, len); push(3, 2, 1, len); }
+    for len in (0..=40usize).chain([63, 64, 65, 1 << 10, (1 << 10) + 1, 1 << 20, 1 << 31, 1 << 40, (1usize << 61) + 1]) { push(3, 0, 0, len); push(3, 2, 1, len); }
     for _ in 0..n { push(r.below(300) as usize, if r.chance(1, 2) { 0 } else { r.below(300) as usize }, if r.chance(1, 2) { 0 } else { r.below(300) as usize }, if r.chance(3, 4) { 1usize << r.below(12) } else { r.below(100) as usize }); }
 }
 
@@ -597,6 +772,91 @@ fn corr_fri(r: &mut Rng, n: usize, out: &mut Vec<String>) {
     for _ in 0..n { let blowup = 1usize << (1 + r.below(7)); push(blowup << (3 + r.below(10)), blowup, 1usize << (1 + r.below(4)), (1usize << r.below(9)) - 1); }
 }
 
+
+// ------------------------------------------------------------------------------------------------ algebraic correspondence (group `deep`)
+trait Fx: StarkField + ExtensibleField<2> + ExtensibleField<3> + 'static { const NAME: &'static str; fn hx(&self) -> String; fn rnd(r: &mut Rng) -> Self; }
+impl Fx for f64::BaseElement { const NAME: &'static str = "f64"; fn hx(&self) -> String { format!("{:x}", self.as_int()) } fn rnd(r: &mut Rng) -> Self { Self::new(r.next_u64()) } }
+impl Fx for f62::BaseElement { const NAME: &'static str = "f62"; fn hx(&self) -> String { format!("{:x}", self.as_int()) } fn rnd(r: &mut Rng) -> Self { Self::new(r.next_u64() >> 3) } }
+impl Fx for f128::BaseElement { const NAME: &'static str = "f128"; fn hx(&self) -> String { format!("{:x}", self.as_int()) } fn rnd(r: &mut Rng) -> Self { Self::new(r.next_u128()) } }
+fn hxs<B: Fx>(v: &[B]) -> String { if v.is_empty() { "-".into() } else { v.iter().map(|e| e.hx()).collect::<Vec<_>>().join(",") } }
+
+fn corr_deep_one<B: Fx>(r: &mut Rng, log_n: u32, blowup: usize, width: usize, cols: usize, kind: u64, out: &mut Vec<String>) {
+    use prover_src::composer::DeepCompositionPoly;
+    use verifier_src::composer::DeepComposer;
+    use winter_air::{proof::Table, DeepCompositionCoefficients};
+    use winter_math::{fft, polynom};
+    use winter_prover::{CompositionPoly, CompositionPolyTrace};
+    let n = 1usize << log_n;
+    // trace polynomials (coefficients): random / constant / low degree / zero
+    let polys: Vec<Vec<B>> = (0..width).map(|c| (0..n).map(|i| match (kind + c as u64) % 4 {
+        0 => B::rnd(r), 1 => if i == 0 { B::rnd(r) } else { B::ZERO }, 2 => if i <= 2 { B::rnd(r) } else { B::ZERO }, _ => if kind == 7 { B::ZERO } else { B::rnd(r) } }).collect()).collect();
+    // composition polynomial H with at most n * cols coefficients (sometimes fewer / zero)
+    let hlen = match kind % 3 { 0 => n * cols, 1 => n * cols - r.below(n as u64) as usize, _ => if kind == 8 { 0 } else { 1 + r.below((n * cols) as u64) as usize } };
+    let mut h: Vec<B> = (0..hlen).map(|_| B::rnd(r)).collect();
+    let z = B::rnd(r);
+    let gam: Vec<B> = (0..width).map(|_| B::rnd(r)).collect();
+    let del: Vec<B> = (0..cols).map(|_| B::rnd(r)).collect();
+    let g = B::get_root_of_unity(log_n);
+    let lde = n * blowup;
+    let g_lde = B::get_root_of_unity(lde.ilog2());
+    let npos = 4.min(lde);
+    let mut positions: Vec<usize> = (0..npos).map(|_| r.below(lde as u64) as usize).collect();
+    positions.sort_unstable(); positions.dedup();
+    let xs: Vec<B> = positions.iter().map(|&p| B::GENERATOR * g_lde.exp((p as u64).into())).collect();
+    let case = format!("deep {} {} {} z={} g={} G {} D {} T {} H {} X {}", B::NAME, n, cols, z.hx(), g.hx(), hxs(&gam), hxs(&del),
+        polys.iter().map(|p| hxs(p)).collect::<Vec<_>>().join(";"), hxs(&h), hxs(&xs));
+    let res = catch(AssertUnwindSafe(|| {
+        let domain = StarkDomain::from_twiddles(fft::get_twiddles::<B>(n), blowup, B::GENERATOR);
+        // real CompositionPoly: interpolate the evaluations of H over the constraint evaluation coset and cut into columns
+        h.resize(n * blowup, B::ZERO);
+        let ce_evals: Vec<B> = (0..n * blowup).map(|i| polynom::eval(&h, B::GENERATOR * g_lde.exp((i as u64).into()))).collect();
+        let comp = CompositionPoly::new(CompositionPolyTrace::new(ce_evals), &domain, cols);
+        let hz = comp.evaluate_at(z);
+        let hrows: Vec<Vec<B>> = xs.iter().map(|&x| comp.evaluate_at(x)).collect();
+        let tp = TracePolyTable::<B>::new(ColMatrix::new(polys.clone()));
+        let ood = tp.get_ood_frame(z);
+        let ood2 = tp.get_ood_frame(z);
+        let cc = DeepCompositionCoefficients { trace: gam.clone(), constraints: del.clone(), lagrange: None };
+        let mut d = DeepCompositionPoly::new(z, cc);
+        d.add_trace_polys(tp, ood);
+        d.add_composition_poly(comp, hz.clone());
+        let deg = d.degree();
+        let evals = d.evaluate(&domain);
+        let pe: Vec<B> = positions.iter().map(|&p| evals[p]).collect();
+        // real verifier composer on the opened rows
+        let spec = Spec::simple(width, log_n, 1, 1);
+        let air = FamAir::<B>::new(TraceInfo::new(width, n), PubInputs { spec: spec.clone(), avals: vec![vec![B::ZERO]] }, ProofOptions::new(1, blowup, 0, FieldExtension::None, 2, 0));
+        let cc = DeepCompositionCoefficients { trace: gam.clone(), constraints: del.clone(), lagrange: None };
+        let composer = DeepComposer::<B>::new(&air, &positions, z, cc);
+        let trows: Vec<B> = xs.iter().flat_map(|&x| polys.iter().map(move |p| polynom::eval(p, x)).collect::<Vec<_>>()).collect();
+        let mut tb = Vec::new(); winter_utils::Serializable::write_into(&trows, &mut tb);
+        let tb = &tb[tb.len() - trows.len() * B::ELEMENT_BYTES..];
+        let ttab = Table::<B>::from_bytes(tb, xs.len(), width).unwrap();
+        let hflat: Vec<B> = hrows.iter().flatten().copied().collect();
+        let mut hb = Vec::new(); winter_utils::Serializable::write_into(&hflat, &mut hb);
+        let hb = &hb[hb.len() - hflat.len() * B::ELEMENT_BYTES..];
+        let htab = Table::<B>::from_bytes(hb, xs.len(), cols).unwrap();
+        let t = composer.compose_trace_columns(ttab, None, ood2.main_frame(), None, None);
+        let c = composer.compose_constraint_evaluations(htab, hz.clone());
+        let vd = composer.combine_compositions(t, c);
+        format!("deg={} hz={} evals={} vdeep={}", deg, hxs(&hz), hxs(&pe), hxs(&vd))
+    }));
+    out.push(format!("{} => {}", case, res.unwrap_or_else(|m| format!("panic:{}", clip(&m)))));
+}
+
+fn corr_deep(r: &mut Rng, n: usize, out: &mut Vec<String>) {
+    let mut k = 0u64;
+    for i in 0..n {
+        let log_n = if i % 10 == 9 { 5 } else { 3 + (i % 2) as u32 };
+        let blowup = *r.pick(&[2usize, 4, 8]);
+        let width = 1 + r.below(3) as usize;
+        let cols = 1 + r.below(blowup as u64) as usize;
+        k += 1;
+        match i % 3 { 0 => corr_deep_one::<f64::BaseElement>(r, log_n, blowup, width, cols, k % 9, out), 1 => corr_deep_one::<f62::BaseElement>(r, log_n, blowup, width, cols, k % 9, out),
+                      _ => corr_deep_one::<f128::BaseElement>(r, log_n, blowup, width, cols, k % 9, out) }
+    }
+}
+
 /// diagnostic: what happens outside the well-formedness condition (never counted as failure)
 fn probe(r: &mut Rng, n: usize) {
     let mut seen = std::collections::BTreeMap::<String, (usize, String)>::new();
@@ -610,7 +870,7 @@ fn probe(r: &mut Rng, n: usize) {
         let wf = fri_wellformed(lde, blowup, fold, rem);
         if wf && q < lde { continue; }
         if q > 255 { continue; }
-        let c = Case { field: "f64".into(), hasher: "blake3_256".into(), opts: Opts { q, blowup, grind: 0, ext: 1, fold, rem }, spec: Spec::simple(1, log_n, 1, r.next_u64()) };
+        let c = Case { lag: 0, field: "f64".into(), hasher: "blake3_256".into(), opts: Opts { q, blowup, grind: 0, ext: 1, fold, rem }, spec: Spec::simple(1, log_n, 1, r.next_u64()) };
         let out = run_case(&c);
         let key = format!("wf={} q<lde={} -> {}", wf as u8, (q < lde) as u8, fail_class(&out));
         let e = seen.entry(key).or_insert((0, case_json(&c))); e.0 += 1;
@@ -632,6 +892,7 @@ fn main() {
                 "tinfo" => corr_tinfo(&mut r, n, &mut out),
                 "ctx" => corr_ctx(&mut r, n, &mut out),
                 "fri" => corr_fri(&mut r, n, &mut out),
+                "deep" => corr_deep(&mut r, n, &mut out),
                 g => { eprintln!("unknown group {}", g); std::process::exit(2); }
             }
             let mut s = out.join("\n"); s.push('\n'); print!("{}", s);
@@ -640,6 +901,7 @@ fn main() {
             let thorough = args.get(4).map(|s| s == "thorough").unwrap_or(false);
             let mut t = Tally { evals: 0, fails: 0, skipped: 0, classes: vec![], strata: Default::default() };
             boundary_stream(&mut r, &mut t, thorough);
+            oracle_crosscheck(&mut r, &mut t, if thorough { 3000 } else { 300 });
             let b = t.evals;
             random_stream(&mut r, &mut t, n);
             let strata: Vec<String> = t.strata.iter().map(|(k, v)| format!("{}={}", k, v)).collect();
